@@ -193,6 +193,8 @@ pub struct DevInner {
     /// ordered list of (offset, data) of every write, for crash images
     pub log_data: bool,
     pub wlog: Vec<(u64, Vec<u8>)>,
+    /// parallel to wlog: this transfer took less than the caller offered because the device cut it short (short_io)
+    pub wshort: Vec<bool>,
     /// number of writes in wlog at each flush call
     pub flush_marks: Vec<usize>,
     pub n_reads: u64,
@@ -242,6 +244,7 @@ impl MemDev {
             log: Vec::new(),
             log_data: false,
             wlog: Vec::new(),
+            wshort: Vec::new(),
             flush_marks: Vec::new(),
             n_reads: 0,
             n_writes: 0,
@@ -292,6 +295,7 @@ impl MemDev {
         let mut d = self.0.borrow_mut();
         d.log.clear();
         d.wlog.clear();
+        d.wshort.clear();
         d.flush_marks.clear();
     }
 }
@@ -391,12 +395,14 @@ impl fatfs::Write for MemDev {
         if n < buf.len() {
             d.past_end = true;
         }
+        let offered = n;
         let n = d.shorten(n);
         if !d.discard_writes {
             d.store.write_at(pos, &buf[..n]);
         }
         if d.log_data {
             d.wlog.push((pos, buf[..n].to_vec()));
+            d.wshort.push(n < offered);
         }
         d.pos += n as u64;
         if d.pos > d.hi_write {
